@@ -119,6 +119,7 @@ def kani_cmd(feature, harness, flags, extra=()):
 
 def run_kani(feature, ob, tag="run", extra=()):
     """Runs one harness under ulimit/timeout; returns parsed result."""
+    feature = ob.get("feature", feature)
     os.makedirs(os.path.join(BUILD, "logs"), exist_ok=True)
     harness = ob["harness"]
     log = os.path.join(BUILD, "logs", f"{harness.replace('::', '.')}.{tag}.log")
@@ -193,6 +194,7 @@ def build_replay(features):
 
 
 def native_replay(harness, values, profile):
+    # (the replay binary is built with every feature a check needs)
     """-> (outcome, detail). outcome: reproduced | passed | inconclusive"""
     arg = ";".join(",".join(str(b) for b in v) for v in values)
     p = subprocess.run([replay_bin(profile), harness.split("::")[-1], arg], env=ENV, text=True,
@@ -310,14 +312,16 @@ def check(prop, tier, seed):
     lines = []
 
     # 1. compile once (all harnesses of the feature), so that the parallel jobs only run CBMC
-    pre = sh(["cargo", "kani", "--features", feature, "--target-dir", os.path.join(BUILD, feature),
-              "-Z", "stubbing", "-Z", "unstable-options", "--only-codegen"], cwd=HCRATE)
-    if pre.returncode != 0:
-        print(pre.stdout[-4000:])
-        print(f"INCONCLUSIVE property={prop}: harness crate does not compile against /repo's working tree")
-        write_evidence(prop, tier, seed, spec, [], t0, gen, violations=0, note="harness crate failed to compile")
-        return 2
-    rb = build_replay([feature])
+    features = sorted({o.get("feature", feature) for o in obs})
+    for ft in features:
+        pre = sh(["cargo", "kani", "--features", ft, "--target-dir", os.path.join(BUILD, ft),
+                  "-Z", "stubbing", "-Z", "unstable-options", "--only-codegen"], cwd=HCRATE)
+        if pre.returncode != 0:
+            print(pre.stdout[-4000:])
+            print(f"INCONCLUSIVE property={prop}: harness crate does not compile against /repo's working tree")
+            write_evidence(prop, tier, seed, spec, [], t0, gen, violations=0, note="harness crate failed to compile")
+            return 2
+    rb = build_replay(features)
 
     smt_results = []
     for s in spec.get("smt", []):
@@ -358,10 +362,13 @@ def check(prop, tier, seed):
                 rec["class"] = "vacuous"
                 inconclusive.append((ob, "reachability twin did not fail: harness is vacuous"))
         elif res["status"] == "pass":
-            bad = [c for c in ob.get("covers", list(res["covers"].keys())) if res["covers"].get(c) != "SATISFIED"]
-            if bad:
+            # vacuity guard: every cover the registry names must be SATISFIED; otherwise at least one
+            # of the harness's reachability witnesses (all are placed after the assertions)
+            bad = [c for c in ob.get("covers", []) if res["covers"].get(c) != "SATISFIED"]
+            some = any(v == "SATISFIED" for v in res["covers"].values())
+            if bad or (res["covers"] and not some) or not res["covers"]:
                 rec["class"] = "vacuous"
-                inconclusive.append((ob, f"cover witness not satisfied: {bad}"))
+                inconclusive.append((ob, f"reachability witness not satisfied: {bad or res['covers'] or 'harness has no kani::cover'}"))
             else:
                 rec["class"] = "discharged"
         else:
@@ -421,8 +428,7 @@ def check(prop, tier, seed):
 def write_evidence(prop, tier, seed, spec, records, t0, gen, violations=0, known=(), replay_built=None, note=None):
     os.makedirs(EVID, exist_ok=True)
     discharged = [r for r in records if r.get("class") in ("discharged", "witness-ok")]
-    nontrivial = [r for r in records if r.get("class") == "discharged"
-                  and (not r.get("covers") or all(v == "SATISFIED" for v in r["covers"].values()))]
+    nontrivial = [r for r in records if r.get("class") == "discharged"]
     funcs = sorted({f for r in records for f in r.get("functions", [])})
     ev = {
         "property_id": prop,
@@ -475,7 +481,7 @@ OB_COMMON_ASSUMPTIONS = [
 def cmd_replay(path):
     rec = json.load(open(path))
     generate()
-    feature = rec["property"].lower()
+    feature = rec["harness"].split("::")[0]
     build_replay([feature])
     rc = 0
     for profile in ("dev", "release"):
